@@ -67,6 +67,13 @@ pub fn cli_main(lookup: &dyn Fn(&str) -> Option<Box<dyn runner::Prop>>, special:
             let prop = lookup(id).expect("unknown property");
             std::process::exit(runner::one_main(prop, tier, idx, false));
         }
+        "--seq" => {
+            let id = &args[2];
+            let tier = Tier::parse(&args[3]).unwrap();
+            let idxs: Vec<u64> = args[4].split(',').filter(|s| !s.is_empty()).map(|s| s.parse().unwrap()).collect();
+            let prop = lookup(id).expect("unknown property");
+            std::process::exit(runner::seq_main(prop, tier, &idxs, false));
+        }
         "selftest" => match selftest() {
             Ok(()) => println!("selftest ok"),
             Err(e) => {
@@ -84,7 +91,14 @@ pub fn cli_main(lookup: &dyn Fn(&str) -> Option<Box<dyn runner::Prop>>, special:
             }
             if let Some(prop) = lookup(&id) {
                 let idx = v["idx"].as_u64().unwrap();
-                let code = runner::one_main(prop, tier, idx, true);
+                let code = match v["history"].as_array() {
+                    Some(h) => {
+                        let mut idxs: Vec<u64> = h.iter().filter_map(|x| x.as_u64()).collect();
+                        idxs.push(idx);
+                        runner::seq_main(prop, tier, &idxs, true)
+                    }
+                    None => runner::one_main(prop, tier, idx, true),
+                };
                 if code == 1 {
                     println!("VIOLATION property={} replay={}", id, args[2]);
                 } else if code == 0 {
